@@ -1011,7 +1011,7 @@ func ssaFieldIs(fa *ssa.FieldAddr, st, field string) bool {
 // ---------------------------------------------------------------- fertiliser table row
 
 func c10Dueng(p *Prog, r *Report) {
-	r.Rule("C10.R4", "fertiliser split: the table row is selected by equality of its first token with the event's fertiliser code, and the direct, ammonium, fast and slow organic parts are all stored to the event's own slot and are proportional to the applied quantity; the applied quantity carries the global fertilisation factor", 6)
+	r.Rule("C10.R4", "fertiliser split: the table row is selected by equality of its first token with the event's fertiliser code, and the direct, ammonium, fast and slow organic parts are all stored to the event's own slot and are proportional to the applied quantity; the applied quantity carries the global fertilisation factor; fast and slow organic pools are (applied N − direct N after the loss) × one column each; six different columns; only the event's own slot is read", 13)
 	x := walked(p, "hermes.dueng")
 	if x == nil {
 		r.Ob("dueng", "-", false, "hermes.dueng not found")
@@ -1074,6 +1074,12 @@ func c10Dueng(p *Prog, r *Report) {
 					det += "; a term is not proportional to the applied quantity DGMG[slot]"
 					break
 				}
+				for _, f := range t.M {
+					if f.E != 1 {
+						ok = false
+						det += "; a share of the row enters with power " + fmt.Sprint(f.E) + " (quantity, content and shares multiply)"
+					}
+				}
 			}
 			r.Ob("split:"+shortRoot(root), p.Pos(e.Pos), ok, det)
 		}
@@ -1108,8 +1114,125 @@ func c10Dueng(p *Prog, r *Report) {
 			d := ndir.Val.Sub(nh4.Val)
 			dep := d.MentionsAtom(vol)
 			usesLoss := ndir.Val.MentionsAtom(vol) && nh4.Val.MentionsAtom(vol)
+			// ammonium kept + ammonium lost = direct N × ammonium share, whatever the loss fraction
+			var ndir0 *Event
+			for _, e := range x.Events {
+				if e.Kind == "assign" && e.Root == "GlobalVarsMain.NDIR" && ndir0 == nil {
+					ndir0 = e
+				}
+			}
+			if ndir0 != nil && ndir0 != ndir {
+				S := stripVersions(nh4.Val.Add(ndir0.Val).Sub(ndir.Val))
+				base := stripVersions(ndir0.Val)
+				okS := !S.MentionsAtom(vol)
+				share := ""
+				if okS {
+					okS = false
+					for _, t := range S.T {
+						for _, f := range t.M {
+							if f.A.Kind == "call" && !base.MentionsAtom(f.A) && S.Equal(base.Mul(PAtom(f.A))) {
+								okS = true
+								share = f.A.Key
+							}
+						}
+					}
+				}
+				r.Ob("ammonium-kept-plus-lost", p.Pos(nh4.Pos), okS, fmt.Sprintf("ammonium N + (direct N before − after the loss) = %s (must be direct N × the ammonium-share column, independent of the loss fraction) %s", clip(S.String(), 160), clip(share, 40)))
+			}
 			r.Ob("loss-on-ammonium-only", p.Pos(ndir.Pos), !dep && usesLoss, fmt.Sprintf("direct N − ammonium N = %s; independent of the loss fraction: %v; both parts are reduced by the loss: %v", clip(stripVersions(d).String(), 200), !dep, usesLoss))
 		}
+	}
+	// the organic remainder: fast and slow pools are (applied N − direct N after the loss) × a column of the row;
+	// everything read belongs to the event's own slot; the six columns used are six different columns
+	{
+		var norg, ndir *Event
+		for _, e := range x.Events {
+			if e.Kind != "assign" {
+				continue
+			}
+			if e.Root == "InputSharedVars.NORG" {
+				norg = e
+			}
+			if e.Root == "GlobalVarsMain.NDIR" {
+				ndir = e
+			}
+		}
+		dgmg := cellP("InputSharedVars.DGMG", slot)
+		if norg == nil || ndir == nil {
+			r.Ob("split:content", "-", false, "the row's N content is not stored for the event (the applied N cannot be computed)")
+		} else {
+			nt := stripVersions(norg.Val).single()
+			okC := len(norg.Idx) == 1 && norg.Idx[0].Equal(slot) && nt != nil && len(nt.M) == 1 && nt.M[0].A.Kind == "call" && nt.C.Cmp(ratInt(1)) == 0
+			r.Ob("split:content", p.Pos(norg.Pos), okC, fmt.Sprintf("N content of the event's slot = %s (must be one column of the selected row)", clip(stripVersions(norg.Val).String(), 90)))
+			total := dgmg.Mul(stripVersions(norg.Val))
+			D := total.Sub(stripVersions(ndir.Val))
+			inD := map[string]bool{}
+			for _, t := range D.T {
+				for _, f := range t.M {
+					inD[f.A.Key] = true
+				}
+			}
+			cols := map[string][]string{}
+			for _, t := range D.T {
+				for _, f := range t.M {
+					if f.A.Kind == "call" {
+						cols[f.A.Key] = append(cols[f.A.Key], "direct/loss")
+					}
+				}
+			}
+			fracs := map[string]string{}
+			for _, root := range []string{"GlobalVarsMain.NSAS", "GlobalVarsMain.NLAS"} {
+				for _, e := range x.Events {
+					if e.Kind != "assign" || e.Root != root {
+						continue
+					}
+					v := stripVersions(e.Val)
+					var extra []*Atom
+					seenA := map[string]bool{}
+					for _, t := range v.T {
+						for _, f := range t.M {
+							if !inD[f.A.Key] && !seenA[f.A.Key] {
+								seenA[f.A.Key] = true
+								extra = append(extra, f.A)
+							}
+						}
+					}
+					okR := len(extra) == 1 && extra[0].Kind == "call" && v.Equal(D.Mul(PAtom(extra[0])))
+					if okR {
+						fracs[shortRoot(root)] = extra[0].Key
+					}
+					r.Ob("split:organic-remainder:"+shortRoot(root), p.Pos(e.Pos), okR, fmt.Sprintf("%s[slot] = %s (must be (applied quantity × N content − direct N after the loss) × one further column of the row)", shortRoot(root), clip(v.String(), 140)))
+				}
+			}
+			distinct := len(fracs) == 2 && fracs["NSAS"] != fracs["NLAS"] && !inD[fracs["NSAS"]] && !inD[fracs["NLAS"]]
+			// the direct part itself uses four different columns: content, direct share, ammonium share, loss
+			nCols := 0
+			for k := range inD {
+				if strings.HasPrefix(k, "hermes.ValAsFloat(") {
+					nCols++
+				}
+			}
+			r.Ob("split:columns-distinct", p.Pos(ndir.Pos), distinct && nCols == 4, fmt.Sprintf("columns of the row used: %d in the direct part (content, direct share, ammonium share, loss: 4 expected), fast and slow pool from two further different columns: %v", nCols, distinct))
+		}
+		// every cell read by a stored value belongs to the event's slot
+		foreign := ""
+		for _, e := range x.Events {
+			if e.Kind != "assign" || !strings.Contains(e.Root, ".") {
+				continue
+			}
+			var walk func(q Poly)
+			walk = func(q Poly) {
+				for _, t := range q.T {
+					for _, f := range t.M {
+						if f.A.Kind == "cell" && len(f.A.Idx) == 1 && strings.Contains(f.A.Root, ".") && !f.A.Idx[0].Equal(slot) {
+							foreign += fmt.Sprintf("%s[%s] in %s at %s; ", f.A.Root, f.A.Idx[0], shortRoot(e.Root), p.Pos(e.Pos))
+						}
+					}
+				}
+			}
+			walk(stripVersions(e.Val))
+		}
+		r.Ob("split:own-slot-reads", p.Pos(fi.Decl.Pos()), foreign == "", "values of another event's slot used in the split: "+orStr(foreign, "none"))
 	}
 	// (investigated and not armed: the pre-crop branch of the rotation reader calls dueng(SLFIND) while it stores code
 	// and quantity at SLFIND-1; slot 0's N parts are overwritten by the residue pseudo-event afterwards, so the
